@@ -102,7 +102,7 @@ def build_cli():
     return os.path.join(CLI_TARGET, "debug")
 
 
-def rv(args, timeout=600):
+def rv(args, timeout=300):
     rc, out = sh([RV] + [str(a) for a in args], timeout=timeout)
     if rc != 0:
         raise ToolError("recorder failed rc=%s: %s\n%s" % (rc, " ".join(map(str, args)), out[-2000:]))
